@@ -13,7 +13,7 @@ CLAIMED = {
                 note="Trusted: CrossHair's str/regex models, z3, the driver vf/chx.py; pure-Python tokenizer only; length bound 3 (quick) / 4 (thorough).",
                 technique=_E1),
     "C18": dict(engine="chx", category="model_checking",
-                text="All path strings up to the stated length over a separator/dot/name alphabet, through 10 entry points of RawFileSystem and a "
+                text="All path strings up to the stated length over a separator/dot/name alphabet, through 11 entry points of RawFileSystem and a "
                      "prefixed FileSystemChain, are decided by exhausting the symbolic path tree; the oracle is the set of paths the code actually "
                      "touched on a model file system, resolved component-wise. Bounded (length 5 quick / 7 thorough).",
                 note="Trusted: POSIX path model vf/stubs/pathmodel.py (validated against os.path each run), CrossHair, z3. No symlinks, no Windows semantics.",
@@ -21,8 +21,9 @@ CLAIMED = {
     "C04": dict(engine="symx", category="other",
                 text="The real srctools.math methods are executed on symbolic reals (sin/cos as symbols with s^2+c^2=1, sqrt/atan2 by their defining "
                      "equations) and z3 decides each identity for ALL reals: SDK convention, proper rotation, every operand/operator mix, products, "
-                     "Euler round trip incl. the 0.001 gimbal threshold. Over the reals, not IEEE doubles; inverse()==transpose() only partially "
-                     "(first-pivot totality) because z3 answers unknown on the full Gauss-Jordan identity.",
+                     "Euler round trip incl. the 0.001 gimbal threshold; inverse()==transpose() on every proper rotation along each of the 92 decision "
+                     "vectors of the Gauss-Jordan code (staged solver-proved lemmas: non-zero divisors, rational normal form, pivot-product identity). "
+                     "Over the reals, not IEEE doubles.",
                 note="Trusted: z3 nlsat, vf/symx.py, the transcribed SDK AngleMatrix reference, 'every rotation has Euler angles'. Rounding error, the "
                      "quantitative gimbal tolerance and the Cython/C++ twins are outside.",
                 technique="symbolic execution of the real code on z3 Real terms (operator overloading + DFS over branches); validity queries in QF_NRA; models replayed with floats"),
@@ -126,7 +127,7 @@ CLAIMED = {
                 text="The real Tokenizer runs on pre + w + post in 23 lexical contexts with w symbolic over all code points (exact length 0..2, 3 in "
                      "string/comment states), the 7 options symbolic; every path compares the one-str delivery with one chunk, every single cut, every pair "
                      "of cuts, per-character delivery and interleaved empty chunks (tokens, values, line numbers, error type/message), asserts only the "
-                     "configured error class escapes, EOF repeats and at most 2*len+4 characters are read. Keyvalues.parse on 12 skeletons with symbolic "
+                     "configured error class escapes, EOF repeats and at most 2*len+4 characters are read. Keyvalues.parse on 13 skeletons with symbolic "
                      "slot, flags and parse options returns a tree or raises exactly KeyValError.",
                 note="Trusted: CrossHair, z3, stubs (BARE_DISALLOWED tuple, intern identity, option attributes assigned directly - the keyword->attribute "
                      "link is its own obligation). Longer w, >2 cuts (3 thorough) other than per-character, real file objects, the Cython tokenizer are outside.",
